@@ -71,3 +71,10 @@ func runDebugCase(prop, idx string) int {
 	fmt.Println("infra:", out.Infra)
 	return 0
 }
+
+func listCases(prop string, n int) {
+	for i := 0; i < n; i++ {
+		c := engc.GenCase(common.Rng(common.Seed(), i), prop, false)
+		fmt.Printf("case %d layout=%s pkgs=%v steps=%d\n", i, c.Layout, c.Pkgs, len(c.Steps))
+	}
+}
